@@ -1,5 +1,90 @@
-(* placeholder until JacobianProofs.v lands *)
-From Optyx Require Import Syntax Machine Jacobian MachineProofs.
-Theorem C03_iter_machine : forall A leaf fbin funa e, fold_iter A leaf fbin funa e = Some (fold_rec A leaf fbin funa e).
-Proof. exact fold_iter_correct. Qed.
-Print Assumptions C03_iter_machine.
+(* C03 — solver-facing gradients and Jacobians are correct in the declared variable order.
+   Statements only; proofs are `exact <lemma>`. *)
+From Coquelicot Require Import Coquelicot.
+From Coq Require Import Reals QArith String List.
+From Optyx Require Import Syntax Occ SemR Autodiff AutodiffLemmas AutodiffProofs Compile ArrTerm Jacobian JacobianProofs.
+From Optyx.Gen Require Import GenTables GenObligations.
+Import ListNotations.
+Close Scope Q_scope.
+
+(* the entries all paths are compared with - values of the model gradient - are the true partial derivatives *)
+Theorem C03_entries_are_derivatives : forall ln2c ln10c e v rho penv,
+  wf e = true -> exact_ops e = true -> AutodiffProofs.dot_same_ok e = true -> regular rho penv e ->
+  is_derive (fun t : R => evalR (upd rho v t) penv e) (rho v) (evalR rho penv (grad ln2c ln10c v e)).
+Proof. exact grad_correct. Qed.
+Print Assumptions C03_entries_are_derivatives.
+
+(* the compiled Jacobian (constant / scaled / general path): entry (i,j) is the value of
+   d e_i / d V_j, for any duplicate-free V containing the variables (permutation or superset) *)
+Theorem C03_compile_jacobian : forall ln2c ln10c es V x penv pow_tbl un_tbl,
+  Forall (fun e => wf e = true) es -> Forall (fun e => JacobianProofs.dot_same_ok e = true) es ->
+  NoDup V -> List.length x = List.length V ->
+  (forall e, In e es -> incl (vars e) V) ->
+  (forall e v, In e es -> In v V -> wf (grad ln2c ln10c v e) = true) ->
+  (forall e v, In e es -> In v V -> incl (vars (grad ln2c ln10c v e)) V) ->
+  not_vector_path es = true ->
+  exists M, run_jac x penv pow_tbl un_tbl (compile_jacobian ln2c ln10c es V) = Some M /\
+    M = map (fun e => map (fun v => evalR (env_of V x) penv (grad ln2c ln10c v e)) V) es.
+Proof. exact compile_jacobian_sound. Qed.
+Print Assumptions C03_compile_jacobian.
+
+(* the specialised shortcuts return exactly what the general path returns *)
+Theorem C03_paths_agree : forall ln2c ln10c es V x penv pow_tbl un_tbl,
+  Forall (fun e => wf e = true) es -> Forall (fun e => JacobianProofs.dot_same_ok e = true) es ->
+  NoDup V -> List.length x = List.length V ->
+  (forall e, In e es -> incl (vars e) V) ->
+  (forall e v, In e es -> In v V -> wf (grad ln2c ln10c v e) = true) ->
+  (forall e v, In e es -> In v V -> incl (vars (grad ln2c ln10c v e)) V) ->
+  not_vector_path es = true ->
+  (exists m, general_path V (compute_jacobian ln2c ln10c es V) = Some m /\
+      run_jac x penv pow_tbl un_tbl (compile_jacobian ln2c ln10c es V) = run_jac x penv pow_tbl un_tbl (JGeneral m)) /\
+  (exists m', general_path V (map (fun e => map (fun v => grad ln2c ln10c v e) V) es) = Some m' /\
+      run_jac x penv pow_tbl un_tbl (compile_jacobian ln2c ln10c es V) = run_jac x penv pow_tbl un_tbl (JGeneral m')).
+Proof. exact compile_paths_agree. Qed.
+Print Assumptions C03_paths_agree.
+
+(* per-node Jacobian rows (incl. products of overlapping slices of one vector) = general path, entry by entry *)
+Theorem C03_row_shortcuts : forall ln2c ln10c V e row,
+  wf e = true -> jac_row V e = Some row ->
+  forall rho penv, map (evalR rho penv) row = map (fun v => evalR rho penv (grad ln2c ln10c v e)) V.
+Proof. exact jac_row_sound_gen. Qed.
+Print Assumptions C03_row_shortcuts.
+
+Theorem C03_compile_gradient : forall ln2c ln10c e V x penv pow_tbl un_tbl,
+  NoDup V -> List.length x = List.length V ->
+  (forall v, In v V -> wf (grad ln2c ln10c v e) = true) ->
+  (forall v, In v V -> incl (vars (grad ln2c ln10c v e)) V) ->
+  not_vector_path [e] = true ->
+  exists row, compile_gradient ln2c ln10c e V = JGeneral [row] /\
+    run_jac x penv pow_tbl un_tbl (compile_gradient ln2c ln10c e V) =
+      Some [map (fun v => evalR (env_of V x) penv (gradient ln2c ln10c v 400 e)) V] /\
+    run_jac x penv pow_tbl un_tbl (compile_gradient ln2c ln10c e V) =
+      Some [map (fun v => evalR (env_of V x) penv (grad ln2c ln10c v e)) V].
+Proof. exact compile_gradient_sound. Qed.
+Print Assumptions C03_compile_gradient.
+
+(* vectorised power and elementwise-function sums: the closure bodies found in the source on THIS
+   run compute the value of the model's derivative rule (re-proved over the generated tables) *)
+Theorem C03_vectorised_unary : forall ce o, In ce gen_unary_grad -> c_case ce = CaseOp o ->
+  forall d, vunary_deriv o "x" = Some d -> forall t : R, uop_reg o t ->
+  eden 0%Q t (c_body ce) = evalR (fun _ => t) (fun _ => 0%R) d.
+Proof. exact gen_unary_grad_correct. Qed.
+Print Assumptions C03_vectorised_unary.
+
+Theorem C03_vectorised_power : forall ce k sparse, pick_power gen_power_grad sparse k = Some ce ->
+  forall t, eden k t (c_body ce) = evalR (fun _ => t) (fun _ => 0%R) (vpow_deriv k "x").
+Proof. exact gen_power_grad_correct. Qed.
+Print Assumptions C03_vectorised_power.
+
+Theorem C03_vectorised_complete :
+  forallb (fun o => match pick_unary gen_unary_grad false o, pick_unary gen_unary_grad true o with
+                    | Some _, Some _ => true | _, _ => false end) (map snd gen_vunarysum_ops) = true
+  /\ forall (k : Q) (sparse : bool), exists ce, pick_power gen_power_grad sparse k = Some ce.
+Proof. split; [exact gen_unary_grad_complete | exact gen_power_grad_complete]. Qed.
+Print Assumptions C03_vectorised_complete.
+
+Example C03_overlapping_slices :
+  compute_jacobian ln2c ln10c [Dot (KVar 1) [Var "x0"; Var "x1"] (KVar 2) [Var "x1"; Var "x2"]] ["x0"; "x1"; "x2"]%string
+  = [[Var "x1"; Bin Add (Var "x0") (Var "x2"); Var "x1"]].
+Proof. vm_compute. reflexivity. Qed.
+Print Assumptions C03_overlapping_slices.
